@@ -96,7 +96,7 @@ class C08:
     prop = "C08"
     level = "exploration"
     design_ref = "DESIGN.md 3.7"
-    tiers = {"quick": {"runs": 6000, "budget_s": 55, "chunk": 50, "twice_every": 25, "shrink_s": 40},
+    tiers = {"quick": {"runs": 16000, "budget_s": 80, "chunk": 80, "twice_every": 25, "shrink_s": 40},
              "thorough": {"runs": 400000, "budget_s": 840, "chunk": 100, "twice_every": 50, "shrink_s": 120}}
     rule = ("one run = one (workload, configuration, fault plan, schedule) drawn from splitmix64(VERIF_SEED, index): "
             "n items 0-14, n_processes 1-5, maxtasksperchild 0-4, read_wait, Multiprocessor or CobaMultiprocessor, "
